@@ -143,6 +143,11 @@ def stripWord (w : String) : List Tok → Option (List Tok)
   | t :: ts => if isW w t then some ts else none
   | [] => none
 
+/-- the leading separator TatSu's zero-or-more gather lets through -/
+def dropLeadComma : List Tok → List Tok
+  | .sym .comma :: r => r
+  | ts => ts
+
 /-- drop a leading comma -/
 def stripComma : List Tok → Option (List Tok)
   | .sym .comma :: ts => some ts
@@ -460,7 +465,9 @@ def parseAtom : Nat → List Tok → P Expr
     | .func w rest =>
       if isKeyword w then none
       else
-        (match parseArgs f rest with
+        -- TatSu's `','.{expression}`: when no expression stands first, the repetition still accepts `, expression`,
+        -- so one leading comma is skipped (`f(, 1)` parses like `f(1)`)
+        (match parseArgs f (dropLeadComma rest) with
          | none => none
          | some (args, rest') => some (.func w args, rest'))
     | .list t rest =>
